@@ -340,7 +340,7 @@ Definition enc_obs (o : list section * option mp_error) : list Z :=
 (* input: boundary (len-prefixed) ; number of chunks ; chunks (len-prefixed each)
    output: the streaming observation, then the one-piece reference on the concatenation
    and wf_prefixb (so that the harness also validates [ref] and [wf_prefixb]) *)
-Definition corr_C06 (inp : list Z) : list Z :=
+Definition corr_C06_chunks (inp : list Z) : list Z :=
   match dec_str inp with
   | Some (B, r) =>
     match dec_list dec_str r with
